@@ -651,12 +651,15 @@ func handleInputStream(s *Session, handler Handler) (err error) {
 			Type:      stanza.Cancel,
 			Condition: stanza.ServiceUnavailable,
 		}.TokenReader()))
-		if err != nil {
+		// If the output stream has already been closed with Close there is no way
+		// to reply, but we still continue until the remote entity closes the
+		// input stream.
+		if err != nil && !errors.Is(err, ErrOutputStreamClosed) {
 			return err
 		}
 	}
 
-	if err := w.Flush(); err != nil {
+	if err := w.Flush(); err != nil && !errors.Is(err, ErrOutputStreamClosed) {
 		return err
 	}
 
